@@ -38,6 +38,30 @@ REGISTRY = dict(
     technique="machine-checked proof in Coq (ring-buffer invariant by induction over the history) + regenerated-fragment interface lemmas + differential correspondence with exhaustive sample tables",
 )
 
+COV_FUNCS = ['stable_baselines3.common.buffers:BaseBuffer.__init__',
+             'stable_baselines3.common.buffers:BaseBuffer.size',
+             'stable_baselines3.common.buffers:BaseBuffer.reset',
+             'stable_baselines3.common.buffers:BaseBuffer.sample',
+             'stable_baselines3.common.buffers:BaseBuffer.extend',
+             'stable_baselines3.common.buffers:BaseBuffer.to_torch',
+             'stable_baselines3.common.buffers:BaseBuffer._normalize_obs',
+             'stable_baselines3.common.buffers:BaseBuffer._normalize_reward',
+             'stable_baselines3.common.buffers:ReplayBuffer.__init__',
+             'stable_baselines3.common.buffers:ReplayBuffer.add',
+             'stable_baselines3.common.buffers:ReplayBuffer.sample',
+             'stable_baselines3.common.buffers:ReplayBuffer._get_samples',
+             'stable_baselines3.common.buffers:ReplayBuffer._maybe_cast_dtype',
+             'stable_baselines3.common.buffers:DictReplayBuffer.__init__',
+             'stable_baselines3.common.buffers:DictReplayBuffer.add',
+             'stable_baselines3.common.buffers:DictReplayBuffer.sample',
+             'stable_baselines3.common.buffers:DictReplayBuffer._get_samples',
+             'stable_baselines3.common.buffers:RolloutBuffer.reset',
+             'stable_baselines3.common.buffers:RolloutBuffer.add',
+             'stable_baselines3.common.buffers:RolloutBuffer.get',
+             'stable_baselines3.common.buffers:DictRolloutBuffer.reset',
+             'stable_baselines3.common.buffers:DictRolloutBuffer.add',
+             'stable_baselines3.common.buffers:DictRolloutBuffer.get']
+
 HEADER = """From Coq Require Import List ZArith Bool.
 From SB3V Require Import Model.Replay.
 Import ListNotations.
@@ -188,9 +212,23 @@ def gen_case(rng, i):
             ops.append({"op": "add", "row": row})
             g += 1
     ops.append({"op": "obs", "batch": rng.randint(1, 6)})
+    # BaseBuffer.extend(): some runs of consecutive adds of an array buffer are stored by one extend() call
+    if buf == "array" and rng.random() < 0.3:
+        gid, k = 0, 0
+        while k < len(ops):
+            if ops[k]["op"] == "add" and rng.random() < 0.4:
+                j = k
+                while j < len(ops) and ops[j]["op"] == "add" and j - k < 4:
+                    ops[j]["ext_group"] = gid
+                    j += 1
+                gid, k = gid + 1, j
+            else:
+                k += 1
+    variants = {"done_dtype": rng.choice(["bool", "bool", "float32", "int64"]), "rew_dtype": rng.choice(["float32", "float64"]),
+                "infos_tuple": rng.random() < 0.3, "act_extra_dim": rng.random() < 0.3}
     vecnorm = (obs_kind in ("box1", "box2", "dict_mixed", "dict_img")) and rng.random() < 0.35
     return {"id": i, "buf": buf, "obs_kind": obs_kind, "act_kind": act_kind, "buffer_size": buffer_size, "n_envs": n_envs,
-            "memopt": memopt, "hto": hto, "chained": chained, "vecnorm": vecnorm, "ops": ops}
+            "memopt": memopt, "hto": hto, "chained": chained, "vecnorm": vecnorm, "variants": variants, "ops": ops}
 
 
 # ---------------------------------------------------------------- implementation run
@@ -288,19 +326,36 @@ def run_impl(case):
         return {"refused": type(e).__name__, "obs": []}
     vn = _make_vecnorm(case, obs_sp, act_sp) if case.get("vecnorm") else None
     out = {"refused": None, "capacity": int(buf.buffer_size), "obs": []}
+    pending_ext = None
     orig = np.random.randint
     ri = Randint(orig)
     np.random.randint = ri
     try:
         for op in case["ops"]:
             if op["op"] == "add":
-                row = op["row"]
-                infos = []
-                for t in row:
-                    infos.append({"TimeLimit.truncated": True} if t[5] else ({} if t[6] == 0 else {"TimeLimit.truncated": False}))
-                buf.add(enc_batch(obs_sp, [t[0] for t in row]), enc_batch(obs_sp, [t[1] for t in row]),
-                        enc_batch(act_sp, [t[2] for t in row]), np.array([t[3] for t in row], dtype=np.float32),
-                        np.array([bool(t[4]) for t in row]), infos)
+                if op.get("ext_group") is not None and pending_ext and pending_ext[0] == op["ext_group"]:
+                    continue                      # already stored by the extend() call of its group
+                var = case.get("variants", {})
+                ddt = {"bool": bool, "float32": np.float32, "int64": np.int64}[var.get("done_dtype", "bool")]
+                rdt = {"float32": np.float32, "float64": np.float64}[var.get("rew_dtype", "float32")]
+
+                def args_of(row):
+                    infos = [({"TimeLimit.truncated": True} if t[5] else ({} if t[6] == 0 else {"TimeLimit.truncated": False})) for t in row]
+                    if var.get("infos_tuple"):
+                        infos = tuple(infos)
+                    act = enc_batch(act_sp, [t[2] for t in row])
+                    if var.get("act_extra_dim") and act.ndim == 1:
+                        act = act.reshape(-1, 1)          # Discrete actions as (n_envs, 1) instead of (n_envs,)
+                    return (enc_batch(obs_sp, [t[0] for t in row]), enc_batch(obs_sp, [t[1] for t in row]), act,
+                            np.array([t[3] for t in row], dtype=rdt), np.array([bool(t[4]) for t in row]).astype(ddt), infos)
+
+                if op.get("ext_group") is not None:
+                    # BaseBuffer.extend(): one call storing the whole group of consecutive adds
+                    group = [o for o in case["ops"] if o.get("ext_group") == op["ext_group"]]
+                    buf.extend(*[list(x) for x in zip(*[args_of(o["row"]) for o in group])])
+                    pending_ext = (op["ext_group"],)
+                else:
+                    buf.add(*args_of(op["row"]))
             elif op["op"] == "reset":
                 buf.reset()
             else:
@@ -589,7 +644,7 @@ def gen_rollout_case(rng, i):
             ops.append(["get", rng.choice([None, 1, 2, 3, T * n, T * n + 2])])
         else:
             ops.append(["reset"])
-    return {"id": i, "dict": rng.random() < 0.4, "T": T, "n": n, "ops": ops}
+    return {"id": i, "dict": rng.random() < 0.4, "T": T, "n": n, "ops": ops, "discrete": rng.random() < 0.3, "scalar_logp": n == 1 and rng.random() < 0.5}
 
 
 def run_rollout(case):
@@ -603,11 +658,12 @@ def run_rollout(case):
     T, n = case["T"], case["n"]
     box = lambda: spaces.Box(-1e6, 1e6, (3,), dtype=np.float32)  # noqa: E731
     act = spaces.Box(-1e6, 1e6, (2,), dtype=np.float32)
+    disc = bool(case.get("discrete"))
     if case["dict"]:
-        sp = spaces.Dict({"a": box(), "b": spaces.Box(-1e6, 1e6, (1, 2), dtype=np.float32)})
+        sp = spaces.Dict({"a": spaces.Discrete(100000) if disc else box(), "b": spaces.Box(-1e6, 1e6, (1, 2), dtype=np.float32)})
         buf = DictRolloutBuffer(T, sp, act, device="cpu", n_envs=n)
     else:
-        sp = box()
+        sp = spaces.Discrete(100000) if disc else box()
         buf = RolloutBuffer(T, sp, act, device="cpu", n_envs=n)
     out, g = [], 0
     for op in case["ops"]:
@@ -616,8 +672,12 @@ def run_rollout(case):
             if op[0] == "add":
                 g += 1
                 tags = np.array([g * 10 + e for e in range(n)], dtype=np.float32)
-                obs = ({"a": np.repeat(tags[:, None], 3, 1), "b": np.repeat(tags[:, None], 2, 1).reshape(n, 1, 2)} if case["dict"] else np.repeat(tags[:, None], 3, 1))
-                buf.add(obs, np.stack([tags + 0.5, -tags], 1), tags + 0.25, np.zeros(n, dtype=np.float32), th.tensor(tags + 0.125), th.tensor(-tags - 0.125))
+                oa = tags.astype(np.int64) if disc else np.repeat(tags[:, None], 3, 1)        # Discrete observations arrive as shape (n_envs,)
+                obs = {"a": oa, "b": np.repeat(tags[:, None], 2, 1).reshape(n, 1, 2)} if case["dict"] else oa
+                logp = th.tensor(-tags - 0.125)
+                if case.get("scalar_logp"):
+                    logp = logp.reshape(())                                                    # one env: a 0-d log-prob tensor
+                buf.add(obs, np.stack([tags + 0.5, -tags], 1), tags + 0.25, np.zeros(n, dtype=np.float32), th.tensor(tags + 0.125), logp)
                 rec["added"] = [int(t) for t in tags]
             elif op[0] == "reset":
                 buf.reset()
@@ -626,6 +686,7 @@ def run_rollout(case):
                 for mb in buf.get(op[1]):
                     o = mb.observations
                     oa = (o["a"] if case["dict"] else o).numpy()
+                    oa = oa.reshape(len(oa), -1)
                     ob = o["b"].numpy().reshape(len(oa), -1) if case["dict"] else oa
                     for j in range(len(oa)):
                         vals = set(float(v) for v in oa[j]) | set(float(v) for v in ob[j])
@@ -638,7 +699,7 @@ def run_rollout(case):
             rec["raised"] = type(e).__name__
         arr = buf.observations["a"] if case["dict"] else buf.observations
         rec.update(pos=int(buf.pos), full=bool(buf.full), ready=bool(buf.generator_ready),
-                   flat=[int(v) for v in np.asarray(arr).reshape(-1, 3)[:, 0]] if buf.generator_ready else None)
+                   flat=[int(v) for v in np.asarray(arr).reshape(len(arr), -1)[:, 0]] if buf.generator_ready else None)
         out.append(rec)
     return out
 
@@ -759,6 +820,9 @@ def load_corpus():
 def main():
     chk = Check("C03", groups=["replay"])
     chk.build_props()
+    from harness import linecov
+
+    _cov = linecov.maybe_start(COV_FUNCS)
     n_cases = 1500 if chk.tier == "quick" else 15000
     cases = load_corpus()
     n_corpus = len(cases)
@@ -815,6 +879,7 @@ def main():
         "np.random.randint is replaced in the harness process to enumerate the ranges the code itself passes; the uniformity of the real generator is not examined",
         "for optimize_memory_usage=True the generated histories chain observations inside an episode (obs of the next add = next_obs of the previous one), as real collection does",
     ]
+    linecov.finish(_cov, chk)
     return chk.finish()
 
 
